@@ -9,6 +9,8 @@ import Genq.Model.Doc
 import Genq.Model.Files
 import Genq.Model.Config
 import Genq.Model.Conv
+import Genq.Model.Types
+import Genq.Model.Collect
 open Lean
 namespace Genq.Driver
 
@@ -331,6 +333,75 @@ def opConv (op : String) (j : Json) : Except String Json := do
       ("goAlias", o.alias), ("typename", o.typename)]
   | _ => throw s!"unknown op {op}"
 
+partial def parseSField (j : Json) : Except String Types.SField := do
+  if (← getBool j "embedded") then
+    let sub ← match j.getObjVal? "sub" with
+      | .ok (.arr a) => a.toList.mapM parseSField
+      | _ => pure []
+    return .embed (← getStr j "name") sub
+  else return .plain (← getStr j "name") (← getStr j "json")
+
+partial def toJ : Json → Types.J
+  | .null => .null
+  | .bool b => .bool b
+  | .num n => .num (toString n)
+  | .str s => .str s
+  | .arr a => .arr (a.toList.map toJ)
+  | .obj kvs => .obj (kvs.toList.map fun (k, v) => (k, toJ v))
+
+def opTypes (op : String) (j : Json) : Except String Json := do
+  match op with
+  | "types.flatten" =>
+    let fs ← (← getArr j "fields").toList.mapM parseSField
+    return Json.mkObj [("out", Json.arr ((Types.flattenedFields fs).map fun p => Json.str p.2).toArray)]
+  | "types.decodeIface" =>
+    -- impls: [[typename, goStruct]...]; kvs: [[key, value]...] (order and duplicates preserved) or value: non-object JSON
+    let impls ← (← getArr j "impls").toList.mapM fun e => do
+      let a ← e.getArr?
+      if h : a.size = 2 then pure ((← a[0].getStr?), (← a[1].getStr?)) else throw "impl entry"
+    let v : Types.J ← match j.getObjVal? "kvs" with
+      | .ok (.arr a) => do
+        let kvs ← a.toList.mapM fun e => do
+          let p ← e.getArr?
+          if h : p.size = 2 then pure ((← p[0].getStr?), toJ p[1]) else throw "kv entry"
+        pure (Types.J.obj kvs)
+      | _ => pure (toJ ((j.getObjVal? "value").toOption.getD Json.null))
+    let r := Types.decodeIface impls v
+    return Json.mkObj [("out", match r with
+      | .nil => Json.arr #["nil"]
+      | .impl tn g => Json.arr #["impl", tn, g]
+      | .errNotObject => Json.arr #["err", "not-object"]
+      | .errMissingTypename => Json.arr #["err", "missing-typename"]
+      | .errUnexpectedType tn => Json.arr #["err", "unexpected-type", tn])]
+  | _ => throw s!"unknown op {op}"
+
+partial def parseS (j : Json) : Except String Collect.S := do
+  match j.getObjVal? "key" with
+  | .ok (.str k) => return .field k
+  | _ =>
+    let sub ← (← getArr j "sub").toList.mapM parseS
+    match j.getObjVal? "cond" with
+    | .ok (.str c) => return .inline (if c == "" then none else some c) sub
+    | _ => return .inline none sub
+
+def opCollect (op : String) (j : Json) : Except String Json := do
+  match op with
+  | "collect.keys" =>
+    let tds ← (← getArr j "types").toList.mapM fun t => do
+      let kind ← match (← getStr t "kind") with
+        | "OBJECT" => pure Collect.Kind.object | "INTERFACE" => pure Collect.Kind.interface | "UNION" => pure Collect.Kind.union
+        | k => throw s!"kind {k}"
+      let ifs ← (← getArr t "interfaces").toList.mapM fun x => x.getStr?
+      let ms ← (← getArr t "members").toList.mapM fun x => x.getStr?
+      pure ({ name := (← getStr t "name"), kind := kind, interfaces := ifs, members := ms } : Collect.TypeDef)
+    let lookup : String → Option Collect.TypeDef := fun n => tds.find? (·.name == n)
+    let objName ← getStr j "object"
+    let some obj := lookup objName | throw s!"unknown object {objName}"
+    let sel ← (← getArr j "sel").toList.mapM parseS
+    return Json.mkObj [("genq", Json.arr ((Collect.genqKeysList lookup obj sel).map Json.str).toArray),
+                       ("spec", Json.arr ((Collect.specKeysList lookup obj sel).map Json.str).toArray)]
+  | _ => throw s!"unknown op {op}"
+
 def dispatch (j : Json) : Json :=
   let r : Except String Json := do
     let op ← getStr j "op"
@@ -343,6 +414,8 @@ def dispatch (j : Json) : Json :=
     else if op.startsWith "files." then opFiles op j
     else if op.startsWith "config." then opConfig op j
     else if op.startsWith "conv." then opConv op j
+    else if op.startsWith "types." then opTypes op j
+    else if op.startsWith "collect." then opCollect op j
     else throw s!"unknown op {op}"
   let idf := match j.getObjVal? "id" with | .ok v => [("id", v)] | .error _ => []
   match r with
